@@ -237,9 +237,17 @@ def count_backing(prog):
     raised, stores = _count_setter_outcome(prog, setter, 96)
     first = setter.params[0]
     hit = [k for k, v in stores.items() if v == 96 and k.startswith(first + '.')]
-    if raised or len(hit) != 1:
+    if not raised and len(hit) == 1:
+        return hit[0][len(first) + 1:]
+    # the setter does not store 96 as given (check_count reports that): the backing attribute is the one attribute it assigns
+    tg = set()
+    for n in ast.walk(setter.node):
+        for t in (n.targets if isinstance(n, ast.Assign) else [n.target] if isinstance(n, (ast.AugAssign, ast.AnnAssign)) else []):
+            if isinstance(t, ast.Attribute) and isinstance(t.value, ast.Name) and t.value.id == first:
+                tg.add(t.attr)
+    if len(tg) != 1:
         raise AnalysisError('String2Key.count int setter does not store the coded octet in one attribute (96 -> %s)' % stores)
-    return hit[0][len(first) + 1:]
+    return tg.pop()
 
 
 def check_count(rep, prog, rid):
